@@ -3543,8 +3543,11 @@ func (r *Resolver) checkPriming() {
 				serverName := strings.ToLower(v6.Header().Name)
 				if nsServers[serverName] {
 					foundServers[serverName] = true
-					if addr, valid := netip.AddrFromSlice(v6.AAAA); valid {
-						endpoint := netip.AddrPortFrom(addr.Unmap(), 53)
+					// the same filter as for glue: a priming response must not
+					// turn loopback, the unspecified address or one of this
+					// host's own addresses into a root server
+					if addr, valid := usableAddr(v6.AAAA); valid {
+						endpoint := netip.AddrPortFrom(addr, 53)
 						if _, ok := seenEndpoints[endpoint]; !ok {
 							seenEndpoints[endpoint] = struct{}{}
 							tmpservers.List = append(tmpservers.List, authority.NewServerFromAddrPort(endpoint))
@@ -3561,8 +3564,8 @@ func (r *Resolver) checkPriming() {
 			serverName := strings.ToLower(v4.Header().Name)
 			if nsServers[serverName] {
 				foundServers[serverName] = true
-				if addr, valid := netip.AddrFromSlice(v4.A); valid {
-					endpoint := netip.AddrPortFrom(addr.Unmap(), 53)
+				if addr, valid := usableAddr(v4.A); valid {
+					endpoint := netip.AddrPortFrom(addr, 53)
 					if _, ok := seenEndpoints[endpoint]; !ok {
 						seenEndpoints[endpoint] = struct{}{}
 						tmpservers.List = append(tmpservers.List, authority.NewServerFromAddrPort(endpoint))
